@@ -123,4 +123,140 @@ theorem resizeRoute_1x1 (bil half : Bool) (n c oh ow : Nat) (h : ¬ (oh = 1 ∧ 
     intro e; simp at e; omega
   simp [this]
 
+/-! ## 16. AVERAGE_POOL with a wide stride = convolution with a diagonal all-ones kernel, scale 1/(kh·kw), rounding away from zero -/
+
+theorem sumRange_diag (C oc : Nat) (f : Nat → Int) :
+    sumRange C (fun ic => f ic * (if ic = oc then 1 else 0)) = if oc < C then f oc else 0 := by
+  induction C with
+  | zero => simp [sumRange]
+  | succ k ih =>
+    simp only [sumRange, ih]
+    by_cases h1 : oc < k
+    · have h2 : oc < k + 1 := by omega
+      have h3 : ¬ (k = oc) := by omega
+      rw [if_pos h1, if_pos h2, if_neg h3]; omega
+    · by_cases h4 : k = oc
+      · have h2 : oc < k + 1 := by omega
+        rw [if_neg h1, if_pos h2, if_pos h4, h4]; omega
+      · have h2 : ¬ (oc < k + 1) := by omega
+        rw [if_neg h1, if_neg h2, if_neg h4]; omega
+
+/-- **The accumulator of the created convolution.** For a window inside the IFM (VALID padding, which the supported-operator
+    check requires of a width stride above 3), output channel `oc < C`, any input offset (minus the IFM zero point; the
+    command generator forces it to 0 for this operator): the convolution with the kernel `w[ky, kx, ic, oc] = [ic = oc]` sums
+    input channel `oc` only — it is the reference pooling sum plus `offset · kh · kw` — and the reference divides by
+    `kh · kw`. With a `[kh, kw, 1, depth]` kernel (repaired finding 24) the left-hand side is another function. -/
+theorem avgpool_conv_acc_eq (H W C : Nat) (ifm : Nat → Nat → Nat → Int) (kh kw sh sw oy ox oc : Nat) (inOff : Int) (hoc : oc < C)
+    (hy : oy * sh + kh ≤ H) (hx : ox * sw + kw ≤ W) :
+    convAcc H W C ifm kh kw (diagWeight oc) sh sw 1 1 0 0 inOff oy ox =
+      (poolSumCount H W (fun y x => ifm y x oc) kh kw sh sw 0 0 oy ox).1 + inOff * (kw : Int) * (kh : Int) ∧
+    (poolSumCount H W (fun y x => ifm y x oc) kh kw sh sw 0 0 oy ox).2 = kh * kw := by
+  rw [poolSumCount_eq]
+  constructor
+  · unfold convAcc
+    simp only []
+    have e : ∀ ky, ky < kh → (sumRange kw fun kx =>
+          if 0 ≤ ((oy * sh + ky * 1 : Nat) : Int) - ((0 : Nat) : Int) ∧ ((oy * sh + ky * 1 : Nat) : Int) - ((0 : Nat) : Int) < (H : Int) ∧
+             0 ≤ ((ox * sw + kx * 1 : Nat) : Int) - ((0 : Nat) : Int) ∧ ((ox * sw + kx * 1 : Nat) : Int) - ((0 : Nat) : Int) < (W : Int)
+          then sumRange C fun ic => (ifm (((oy * sh + ky * 1 : Nat) : Int) - ((0 : Nat) : Int)).toNat (((ox * sw + kx * 1 : Nat) : Int) - ((0 : Nat) : Int)).toNat ic + inOff) *
+              diagWeight oc ky kx ic
+          else 0) =
+        (sumRange kw fun kx =>
+          if 0 ≤ ((oy * sh + ky : Nat) : Int) - ((0 : Nat) : Int) ∧ ((oy * sh + ky : Nat) : Int) - ((0 : Nat) : Int) < (H : Int) ∧
+             0 ≤ ((ox * sw + kx : Nat) : Int) - ((0 : Nat) : Int) ∧ ((ox * sw + kx : Nat) : Int) - ((0 : Nat) : Int) < (W : Int)
+          then ifm (((oy * sh + ky : Nat) : Int) - ((0 : Nat) : Int)).toNat (((ox * sw + kx : Nat) : Int) - ((0 : Nat) : Int)).toNat oc else 0) + inOff * (kw : Int) := by
+      intro ky hky
+      rw [← sumRange_const kw inOff, ← sumRange_add]
+      apply sumRange_congr
+      intro kx hkx
+      simp only [Nat.mul_one]
+      have c1 : 0 ≤ ((oy * sh + ky : Nat) : Int) - ((0 : Nat) : Int) ∧ ((oy * sh + ky : Nat) : Int) - ((0 : Nat) : Int) < (H : Int) ∧
+             0 ≤ ((ox * sw + kx : Nat) : Int) - ((0 : Nat) : Int) ∧ ((ox * sw + kx : Nat) : Int) - ((0 : Nat) : Int) < (W : Int) := by omega
+      rw [if_pos c1, if_pos c1]
+      unfold diagWeight
+      rw [sumRange_diag, if_pos hoc]
+    rw [sumRange_congr _ _ _ e, sumRange_add, sumRange_const]
+  · have hrow : ∀ ky, ky < kh → (countRange kw fun kx =>
+        decide (0 ≤ ((oy * sh + ky : Nat) : Int) - ((0 : Nat) : Int) ∧ ((oy * sh + ky : Nat) : Int) - ((0 : Nat) : Int) < (H : Int) ∧
+             0 ≤ ((ox * sw + kx : Nat) : Int) - ((0 : Nat) : Int) ∧ ((ox * sw + kx : Nat) : Int) - ((0 : Nat) : Int) < (W : Int))) = kw := by
+      intro ky hky
+      apply countRange_true
+      intro kx hkx
+      have c1 : 0 ≤ ((oy * sh + ky : Nat) : Int) - ((0 : Nat) : Int) ∧ ((oy * sh + ky : Nat) : Int) - ((0 : Nat) : Int) < (H : Int) ∧
+             0 ≤ ((ox * sw + kx : Nat) : Int) - ((0 : Nat) : Int) ∧ ((ox * sw + kx : Nat) : Int) - ((0 : Nat) : Int) < (W : Int) := by omega
+      exact decide_eq_true c1
+    exact foldl_add_const kh kw _ hrow
+
+/-- `(2a + n) / (2n) = (a + n/2) / n` for `a ≥ 0`: rounding to nearest with the exact half and with the kernel's `n / 2` agree -/
+theorem half_up_div (a : Int) (n : Nat) (ha : 0 ≤ a) (hn : 0 < n) :
+    (2 * a + (n : Int)) / (2 * (n : Int)) = (a + ((n / 2 : Nat) : Int)) / (n : Int) := by
+  have hn' : (0 : Int) < (n : Int) := by omega
+  have hq := Int.mul_ediv_add_emod (a + ((n / 2 : Nat) : Int)) (n : Int)
+  have hr0 := Int.emod_nonneg (a + ((n / 2 : Nat) : Int)) (by omega : (n : Int) ≠ 0)
+  have hr1 := Int.emod_lt_of_pos (a + ((n / 2 : Nat) : Int)) hn'
+  generalize (a + ((n / 2 : Nat) : Int)) / (n : Int) = q at *
+  generalize (a + ((n / 2 : Nat) : Int)) % (n : Int) = r at *
+  have h2 : ((n / 2 : Nat) : Int) = (n : Int) / 2 := by omega
+  have key : (2 * a + (n : Int)) / (2 * (n : Int)) = q ∧ (2 * a + (n : Int)) % (2 * (n : Int)) = 2 * r + (n : Int) % 2 := by
+    rw [Int.ediv_emod_unique (by omega : (0 : Int) < 2 * (n : Int))]
+    refine ⟨?_, by omega, by omega⟩
+    have : 2 * (n : Int) * q = 2 * ((n : Int) * q) := by rw [Int.mul_assoc]
+    rw [this]
+    generalize (n : Int) * q = nq at *
+    omega
+  exact key.1
+
+/-- **The rounding.** Rounding `acc / n` to the nearest integer, halves away from zero — the `AwayZero` rounding the rewrite asks
+    for, applied to the EXACT scale `1 / n` the rewrite stores — is the reference kernel's average for signed types, for
+    every accumulator. -/
+theorem avgpool_round_away_eq_ref_signed (acc : Int) (n : Nat) (hn : 0 < n) : roundAway acc n = avgRound true acc n := by
+  unfold roundAway avgRound
+  have hn0 : ¬ (n = 0) := by omega
+  simp only [if_neg hn0, if_true]
+  by_cases hp : acc > 0
+  · have h0 : acc ≥ 0 := by omega
+    rw [if_pos h0, if_pos hp, Int.tdiv_eq_ediv_of_nonneg (by omega)]
+    exact half_up_div acc n (by omega) hn
+  · rw [if_neg hp]
+    have e : acc - ((n / 2 : Nat) : Int) = -((-acc) + ((n / 2 : Nat) : Int)) := by omega
+    rw [e, Int.neg_tdiv, Int.tdiv_eq_ediv_of_nonneg (by omega), ← half_up_div (-acc) n (by omega) hn]
+    by_cases hz : acc ≥ 0
+    · have : acc = 0 := by omega
+      subst this
+      rw [if_pos (by omega)]
+      have : (2 * (0 : Int) + (n : Int)) / (2 * (n : Int)) = 0 := Int.ediv_eq_zero_of_lt (by omega) (by omega)
+      simp only [Int.neg_zero, this]
+    · rw [if_neg hz]
+
+/-- the same for uint8 (the kernel adds `n / 2` and truncates; its sums are non-negative) -/
+theorem avgpool_round_away_eq_ref_unsigned (acc : Int) (n : Nat) (hn : 0 < n) (hacc : 0 ≤ acc) : roundAway acc n = avgRound false acc n := by
+  unfold roundAway avgRound
+  have hn0 : ¬ (n = 0) := by omega
+  simp only [if_neg hn0]
+  rw [if_pos hacc]
+  have : (false = true) = False := by simp
+  simp only [this, if_false]
+  rw [Int.tdiv_eq_ediv_of_nonneg (by omega)]
+  exact half_up_div acc n hacc hn
+
+/-- **`convert_avg_pool_to_conv2d` preserves the operator** (signed types, input and output quantisation equal, both zero
+    points forced to 0 as `use_zero_point_0` does for this operator): at every output element of every window inside the IFM the
+    created convolution — accumulator of the diagonal kernel, exact scale `1 / (kh · kw)`, rounding away from zero, clamp — is the
+    reference AVERAGE_POOL_2D, for every input. -/
+theorem avgpool_lowering_eq_ref (H W C : Nat) (ifm : Nat → Nat → Nat → Int) (kh kw sh sw oy ox oc : Nat) (lo hi : Int) (hoc : oc < C)
+    (hk : 0 < kh * kw) (hy : oy * sh + kh ≤ H) (hx : ox * sw + kw ≤ W) :
+    avgPoolLoweredExact (convAcc H W C ifm kh kw (diagWeight oc) sh sw 1 1 0 0 0 oy ox) (kh * kw) 0 lo hi =
+    avgPoolRef true H W (fun y x => ifm y x oc) kh kw sh sw 0 0 oy ox lo hi := by
+  obtain ⟨h1, h2⟩ := avgpool_conv_acc_eq H W C ifm kh kw sh sw oy ox oc 0 hoc hy hx
+  unfold avgPoolLoweredExact avgPoolRef
+  simp only [h1, h2, Int.zero_mul, Int.add_zero]
+  rw [avgpool_round_away_eq_ref_signed _ _ hk]
+
+/-- why the zero points must be forced to 0: with the IFM zero point subtracted from the accumulator and added back after the
+    rounding, a tie whose raw sum and corrected sum have different signs rounds the other way (elements 1, 2, zero point 5:
+    the reference gives 2, the lowered operator 1) — rounding half away from zero is not translation invariant -/
+theorem avgpool_zero_point_kept_witness : roundAway (3 - 5 * 2) 2 + 5 = 1 ∧ avgRound true 3 2 = 2 := by decide
+
+example : convertAvgPoolToConv2d true 2 3 1 4 8 = some ⟨2, 3, 8, 6, 1, 4⟩ ∧ convertAvgPoolToConv2d true 2 3 4 3 8 = none := by decide
+
 end VelaVerif.Props.C01Rewrites3
